@@ -3,6 +3,7 @@ import BSEModel.ManipOps
 import BSEModel.Canon
 import BSEModel.Validator
 import BSEModel.Compare
+import BSEModel.Augment
 import BSEGen.Api
 import BSEGen.Manip
 open Lean BSE BSE.Drv
@@ -83,6 +84,28 @@ def decodeKeyed (j : Json) : Except String (List (BSE.Cmp.Keyed String)) := do
     pure (sh, rsq)
 
 def handlers : List (String × Handler) := [
+  ("augment_plan", fun j => do
+    let shells ← decodeShells j "shells"
+    if !allParse shells then throw "unparsable number" else
+    let nadd ← getNat j "nadd"
+    let steep ← getBool j "steep"
+    match BSE.Aug.augmentPlan numVal Gen.Manip.mgZero nadd steep shells with
+    | .error e => pure (obj [("raise", Json.str e)])
+    | .ok plan => pure (obj [("ok", Json.arr (plan.map fun p =>
+        obj [("am", toJson p.1), ("ftype", toJson p.2.1), ("region", toJson p.2.2.1),
+             ("new", Json.arr (p.2.2.2.map ratJson).toArray)]).toArray)])),
+  ("truhlar_el", fun j => do
+    let shells ← decodeShells j "shells"
+    if !allParse shells then throw "unparsable number" else
+    let nrem : Option Nat := match j.getObjVal? "nremove" with
+      | .ok (Json.num n) => some n.mantissa.toNat
+      | _ => none
+    match makeGeneral numVal Gen.Manip.mgZero false shells with
+    | .error e => pure (obj [("raise", Json.str e)])
+    | .ok gen =>
+      match BSE.Aug.removeDiffuse numVal gen nrem with
+      | .error e => pure (obj [("raise", Json.str e)])
+      | .ok r => pure (result (pruneShells numVal r))),
   ("compare_lists", fun j => do
     let a ← decodeKeyed (← j.getObjVal? "a")
     let b ← decodeKeyed (← j.getObjVal? "b")
